@@ -117,6 +117,10 @@ func checkC10(p *Program, r *Result) {
 	}
 	checkLexerChunkState(p, r)
 	checkSlotLength(p, r)
+	rfns := sortedFuncs(scope)
+	checkOptionalDeref(p, r, rfns)
+	checkReadWidths(p, r, rfns)
+	checkLoopProgress(p, r, rfns)
 }
 
 // checkSlotLength (C10.s): in the index-based loadChunk the record walk and NextInto bound every slice by the
